@@ -97,6 +97,31 @@ FRAGMENTS: typing.List[Frag] = [
     Frag("b_plus", "{%+ if b %}P{% endif %}", LSTRIP_ON),  # see EXCLUDED[0]
 ]
 
+# Fragments of the autoescape sub-space (O1a): HTML-special text in the context (`h`), a Markup object (`mk`), the
+# escaping filters, and the constructs whose result is Markup under autoescape (macro call, block set, caller()).
+HTML_FRAGMENTS: typing.List[Frag] = [
+    Frag("h_text", "<p class=\"x\">&'\n"),
+    Frag("h_h", "{{ h }}"),
+    Frag("h_mk", "{{ mk }}"),
+    Frag("h_e", "{{ h|e }}{{ mk|e }}"),
+    Frag("h_escape", "{{ h|escape }}{{ mk|escape }}"),
+    Frag("h_safe", "{{ h|safe }}"),
+    Frag("h_force", "{{ h|forceescape }}{{ mk|forceescape }}"),
+    Frag("h_concat", "{{ mk ~ h }}|{{ h + mk }}"),
+    Frag("h_indent", "{{ h|indent(2) }}|{{ mk|indent(1) }}|{{ mk|upper }}|{{ mk|length }}"),
+    Frag("h_misc", "{{ mk|striptags }}|{{ h|replace('<', '&') }}|{{ [h, mk]|join('<') }}|{{ mk|trim }}|{{ h|default(mk) }}"),
+    Frag("h_macro", "{% macro hq() %}{{ h }}\n{{ mk }}{% endmacro %}{{ hq() }}|{{ hq()|e }}"),
+    Frag("h_setblk", "{% set hx %}<s>{{ h }}{% endset %}{{ hx }}|{{ hx|e }}"),
+    Frag("h_call", "{% macro hw() %}[{{ caller() }}]{% endmacro %}{% call hw() %}<c>{{ h }}{% endcall %}"),
+    Frag("h_filter", "{% filter e %}<f>{{ mk }}{% endfilter %}{% filter upper %}{{ h }}{% endfilter %}"),
+    Frag("h_include", "{% include 'inch' %}"),
+    Frag("h_for", "{% for i in [h, mk] %}{{ i }}\n{% endfor %}"),
+    Frag("h_autoescape_tag", "{% autoescape false %}{{ h }}{% endautoescape %}{% autoescape true %}{{ h }}{% endautoescape %}"),
+]
+ALL_FRAGS: typing.List[Frag] = FRAGMENTS + HTML_FRAGMENTS
+# main-grammar fragments that are crossed with the HTML fragments in O1a
+O1A_MAIN = ["t_sp", "t_ind_nl", "t_nl_tab", "e_v", "e_lv", "e_vr", "c_sp", "c_minus", "r_plain", "b_if_ws", "b_for_ws"]
+
 WRAPPERS: typing.List[typing.Tuple[str, str, str]] = [
     ("w_if", "{% if true %}", "{% endif %}"),
     ("w_else", "{% if false %}no{% else %}", "{% endif %}"),
@@ -138,18 +163,18 @@ class Tpl(typing.NamedTuple):
 
     @property
     def name(self) -> str:
-        s = "+".join(FRAGMENTS[i].name for i in self.frags)
+        s = "+".join(ALL_FRAGS[i].name for i in self.frags)
         for w in reversed(self.wraps):
             s = f"{WRAPPERS[w][0]}({s})"
         return s
 
     @property
     def names(self) -> typing.List[str]:
-        return [WRAPPERS[w][0] for w in self.wraps] + [FRAGMENTS[i].name for i in self.frags]
+        return [WRAPPERS[w][0] for w in self.wraps] + [ALL_FRAGS[i].name for i in self.frags]
 
     @property
     def src(self) -> str:
-        s = "".join(FRAGMENTS[i].src for i in self.frags)
+        s = "".join(ALL_FRAGS[i].src for i in self.frags)
         for w in reversed(self.wraps):
             s = WRAPPERS[w][1] + s + WRAPPERS[w][2]
         return s
@@ -158,8 +183,8 @@ class Tpl(typing.NamedTuple):
     def flags(self) -> typing.List[str]:
         ok = list(tw.FLAGS)
         for i in self.frags:
-            if FRAGMENTS[i].flags is not None:
-                ok = [f for f in ok if f in FRAGMENTS[i].flags]  # type: ignore
+            if ALL_FRAGS[i].flags is not None:
+                ok = [f for f in ok if f in ALL_FRAGS[i].flags]  # type: ignore
         return ok
 
 
@@ -179,6 +204,28 @@ def o1_space() -> typing.Iterator[typing.Tuple[Tpl, bool]]:
                 yield Tpl((w1, w2), (f,)), False
 
 
+def o1a_space() -> typing.Iterator[typing.Tuple[Tpl, bool]]:
+    """The autoescape sub-space (every template runs with autoescape off AND on): all sequences of <=2 of (HTML
+    fragments + O1A_MAIN) that contain an HTML fragment, all sequences of 3 HTML fragments, every HTML fragment and
+    every pair of HTML fragments inside every wrapper. Quick core: single HTML fragments, bare and wrapped."""
+    html = list(range(len(FRAGMENTS), len(ALL_FRAGS)))
+    main = [[f.name for f in FRAGMENTS].index(n) for n in O1A_MAIN]
+    both = html + main
+    for f in html:
+        yield Tpl((), (f,)), True
+    for a in both:
+        for b in both:
+            if a in html or b in html:
+                yield Tpl((), (a, b)), False
+    for seq in itertools.product(html, repeat=3):
+        yield Tpl((), seq), False
+    for w in range(len(WRAPPERS)):
+        for f in html:
+            yield Tpl((w,), (f,)), True
+        for seq in itertools.product(html, repeat=2):
+            yield Tpl((w,), seq), False
+
+
 # ---------------------------------------------------------------------------------------------- O1 evaluation
 CTXS = tw.contexts()
 
@@ -195,7 +242,7 @@ def o1_compare(b: tw.Outcome, s: tw.Outcome) -> typing.Optional[str]:
 _WS_COMMENT_STAR = re.compile(r"[ \t]\{#\*")
 
 
-def o1_feature(src: str, flags: str, le: str, ci: int, names: typing.Sequence[str]) -> str:
+def o1_feature(src: str, flags: str, le: str, ci: int, names: typing.Sequence[str], ae: bool = False) -> str:
     """Root-cause class of an O1 disagreement. A recognised class is only returned when it is shown to be the cause
     and to have exactly the recorded effect: (1) the repaired template (`{# *` instead of `{#*`) means the same to
     stock and makes the two engines agree; (2) the bundled engine renders the original exactly as stock renders it with
@@ -203,11 +250,11 @@ def o1_feature(src: str, flags: str, le: str, ci: int, names: typing.Sequence[st
     if _WS_COMMENT_STAR.search(src):
         c = [CTXS[ci]]
         repaired = src.replace("{#*", "{# *")
-        s0 = tw.render("stock", flags, le, src, c)[0]
-        s1 = tw.render("stock", flags, le, repaired, c)[0]
-        b1 = tw.render("bundled", flags, le, repaired, c)[0]
-        b0 = tw.render("bundled", flags, le, src, c)[0]
-        s2 = tw.render("stock", flags, le, re.sub(r"[ \t]+\{#\*", "{#*", src), c)[0]
+        s0 = tw.render("stock", flags, le, src, c, ae)[0]
+        s1 = tw.render("stock", flags, le, repaired, c, ae)[0]
+        b1 = tw.render("bundled", flags, le, repaired, c, ae)[0]
+        b0 = tw.render("bundled", flags, le, src, c, ae)[0]
+        s2 = tw.render("stock", flags, le, re.sub(r"[ \t]+\{#\*", "{#*", src), c, ae)[0]
         if s0 == s1 and o1_compare(b1, s1) is None and b0 == s2:
             return "blanks_before_comment_star"
     return "fragments:" + "+".join(names)
@@ -215,45 +262,48 @@ def o1_feature(src: str, flags: str, le: str, ci: int, names: typing.Sequence[st
 
 def o1_eval_case(case: dict) -> typing.Optional[typing.Tuple[dict, str]]:
     src, flags, le, ci = case["template"], case["flags"], case["le"], case["ctx"]
-    b = tw.render("bundled", flags, le, src, [CTXS[ci]])[0]
-    s = tw.render("stock", flags, le, src, [CTXS[ci]])[0]
+    ae = bool(case.get("autoescape", False))
+    b = tw.render("bundled", flags, le, src, [CTXS[ci]], ae)[0]
+    s = tw.render("stock", flags, le, src, [CTXS[ci]], ae)[0]
     kind = o1_compare(b, s)
     if kind is None:
         return None
-    p = tw.render("pristine", flags, le, src, [CTXS[ci]])[0]
+    p = tw.render("pristine", flags, le, src, [CTXS[ci]], ae)[0]
     cause = "nunavut_lexer_edit" if p == s else ("not_the_lexer_edit" if p == b else "mixed")
-    feat = o1_feature(src, flags, le, ci, case.get("names", []))
+    feat = o1_feature(src, flags, le, ci, case.get("names", []), ae)
     sig = {"oracle": "plain", "kind": kind, "feature": feat, "cause": cause}
+    if ae:
+        sig["autoescape"] = True
     what = (
-        f"ordinary template {tw.with_le(src, le)!r} [{flags}, ctx {ci}]: bundled {b!r} vs stock {s!r} "
+        f"ordinary template {tw.with_le(src, le)!r} [{flags}{', autoescape' if ae else ''}, ctx {ci}]: bundled {b!r} vs stock {s!r} "
         f"(bundled engine without Nunavut's lexer alternatives: {p!r})"
     )
     return sig, what
 
 
-def o1_differs(t: Tpl, flags: str, le: str, ci: int) -> bool:
+def o1_differs(t: Tpl, flags: str, le: str, ci: int, ae: bool = False) -> bool:
     if flags not in t.flags:
         return False
-    b = tw.render("bundled", flags, le, t.src, [CTXS[ci]])[0]
-    s = tw.render("stock", flags, le, t.src, [CTXS[ci]])[0]
+    b = tw.render("bundled", flags, le, t.src, [CTXS[ci]], ae)[0]
+    s = tw.render("stock", flags, le, t.src, [CTXS[ci]], ae)[0]
     return o1_compare(b, s) is not None
 
 
-def o1_minimize(t: Tpl, flags: str, le: str, ci: int) -> Tpl:
+def o1_minimize(t: Tpl, flags: str, le: str, ci: int, ae: bool = False) -> Tpl:
     """Greedy structural minimisation: drop wrappers, then fragments, while the disagreement persists."""
     changed = True
     while changed:
         changed = False
         for k in range(len(t.wraps)):
             c = Tpl(t.wraps[:k] + t.wraps[k + 1 :], t.frags)
-            if c.frags and o1_differs(c, flags, le, ci):
+            if c.frags and o1_differs(c, flags, le, ci, ae):
                 t, changed = c, True
                 break
         if changed:
             continue
         for k in range(len(t.frags)):
             c = Tpl(t.wraps, t.frags[:k] + t.frags[k + 1 :])
-            if (c.frags or c.wraps) and o1_differs(c, flags, le, ci):
+            if (c.frags or c.wraps) and o1_differs(c, flags, le, ci, ae):
                 t, changed = c, True
                 break
     return t
@@ -267,21 +317,23 @@ _I_SP = [f.name for f in FRAGMENTS].index("c_sp")
 _I_STAR = [f.name for f in FRAGMENTS].index("c_star")
 
 
-def o1_work(tpls: typing.List[Tpl]) -> dict:
+def o1_work(tpls: typing.List[typing.Tuple[Tpl, typing.Tuple[bool, ...]]]) -> dict:
     bag = Bag()
-    r = {"cases": 0, "evals": 0, "nontrivial": 0, "both_ok": 0, "both_raise": 0, "family_mismatch": 0}
+    r = {"cases": 0, "cases_autoescape": 0, "evals": 0, "nontrivial": 0, "both_ok": 0, "both_raise": 0}
+    r.update(family_mismatch=0, escaping_observable=0)
     outcomes: typing.Set[int] = set()
     minimized = 0
     samples: typing.List[dict] = []
-    for t in tpls:
+    for t, aes in tpls:
         src = t.src
         for flags in t.flags:
-            for le in tw.LINE_ENDINGS:
+            for le, ae in itertools.product(tw.LINE_ENDINGS, aes):
                 if le == "crlf" and "\n" not in src:
                     continue
-                bs = tw.render("bundled", flags, le, src, CTXS)
-                ss = tw.render("stock", flags, le, src, CTXS)
+                bs = tw.render("bundled", flags, le, src, CTXS, ae)
+                ss = tw.render("stock", flags, le, src, CTXS, ae)
                 r["cases"] += 1
+                r["cases_autoescape"] += int(ae)
                 norm = src  # the engines normalise CRLF to LF
                 for ci, (b, s) in enumerate(zip(bs, ss)):
                     r["evals"] += 1
@@ -290,6 +342,8 @@ def o1_work(tpls: typing.List[Tpl]) -> dict:
                         outcomes.add(_h(s[1]))
                         if s[1] != norm:
                             r["nontrivial"] += 1
+                        if ae and ("&lt;" in s[1] or "&amp;" in s[1] or "&#3" in s[1]):
+                            r["escaping_observable"] += 1
                         if kind is None:
                             r["both_ok"] += 1
                     elif kind is None:
@@ -300,6 +354,8 @@ def o1_work(tpls: typing.List[Tpl]) -> dict:
                     if kind is None:
                         continue
                     case = {"oracle": "plain", "template": src, "names": t.names, "flags": flags, "le": le, "ctx": ci}
+                    if ae:
+                        case["autoescape"] = True
                     ev = o1_eval_case(case)
                     if ev is None:
                         raise HarnessError(f"O1 disagreement did not reproduce: {case}")
@@ -309,7 +365,7 @@ def o1_work(tpls: typing.List[Tpl]) -> dict:
                         # a second cause next to the known comment case must not be minimised back into it: look at
                         # the template with `{#* c #}` replaced by `{# c #}` first
                         t2 = Tpl(t.wraps, tuple(_I_SP if i == _I_STAR else i for i in t.frags))
-                        mt = o1_minimize(t2 if t2 != t and o1_differs(t2, flags, le, ci) else t, flags, le, ci)
+                        mt = o1_minimize(t2 if t2 != t and o1_differs(t2, flags, le, ci, ae) else t, flags, le, ci, ae)
                         case = {**case, "template": mt.src, "names": mt.names}
                         ev = o1_eval_case(case)
                         if ev is None:
@@ -359,7 +415,23 @@ CONSTRUCTS: typing.List[Cons] = [
     Cons("k_block", "block", "block", "{%@ block blk %}b1\n b2\n{% endblock %}"),
     Cons("k_raw", "raw", "block", "{%@ raw %}r1\n{{ r2 }}\n{% endraw %}"),
     Cons("k_nested", "nested_marker", "block", "{%@ for i in l %}\n  {{* m }}\n{% endfor %}"),
+    # values with HTML-special characters, Markup values and the escaping filters (both autoescape settings)
+    Cons("x_h", "expr_html_string", "expr", "h"),
+    Cons("x_mk", "expr_markup", "expr", "mk"),
+    Cons("x_h_e", "expr_markup", "expr", "h|e"),
+    Cons("x_h_escape", "expr_markup", "expr", "h|escape"),
+    Cons("x_h_safe", "expr_markup", "expr", "h|safe"),
+    Cons("x_h_force", "expr_markup", "expr", "h|forceescape"),
+    Cons("x_mk_force", "expr_markup", "expr", "mk|forceescape"),
+    Cons("x_hmacro", "expr_macro_call", "expr", "hq()", prelude="{% macro hq() %}{{ h }}\n<q>{{ mk }}{% endmacro %}"),
+    Cons("k_for_h", "for", "block", "{%@ for i in [h, mk] %}<li>{{ i }}\n{{ i|e }}\n{% endfor %}"),
+    Cons("k_include_h", "include", "block", "{%@ include 'inch' %}"),
+    Cons("k_filter_e", "filter", "block", "{%@ filter e %}<f>\n{{ h }}{{ mk }}{% endfilter %}"),
 ]
+HTML_CONSTRUCTS = (
+    "x_h x_mk x_h_e x_h_escape x_h_safe x_h_force x_mk_force x_hmacro k_for_h k_include_h k_filter_e".split()
+)
+assert all(n in {c.name for c in CONSTRUCTS} for n in HTML_CONSTRUCTS)
 
 WS = ["", "  ", "\t", "    ", " \t"]
 LEADS = ["", "x", "x\n", "\n\n", "x ", "{{ n }}", "{% if 1 %}{% endif %}\n"]
@@ -402,13 +474,16 @@ def ref_prefix_text(text: str, ws: str) -> str:
 def c19ref(value: typing.Any, ws: str) -> str:
     """Reference filter of the twin template: emits the expected lines in a sentinel-delimited, unambiguous encoding
     (\\x01 line \\x03 terminator-code \\x04 ... \\x02), so that the comparison can leave the terminators free."""
-    text = value if isinstance(value, str) else str(value)
+    text = str(value)  # plain str, also for a Markup object
     out = []
     for raw in text.splitlines(True):
         body = raw.splitlines()[0]
         term = raw[len(body) :]
         out.append((ws + body if body else body) + "\x03" + _TERM_CODE.get(term, "1") + "\x04")
-    return "\x01" + "".join(out) + "\x02"
+    res = "\x01" + "".join(out) + "\x02"
+    # what is markup stays markup (not escaped again on output), what is text stays text (escaped on output under
+    # autoescape exactly like the plain construct's value); the sentinels are not touched by HTML escaping
+    return type(value)(res) if hasattr(value, "__html__") else res
 
 
 def strip1(text: str) -> str:
@@ -502,8 +577,8 @@ def o2_sources(case: dict) -> typing.Dict[str, typing.Any]:
     }
 
 
-def _o2_env(flags: str, le: str) -> typing.Any:
-    env = tw.get_env("bundled", flags, le)
+def _o2_env(flags: str, le: str, ae: bool = False) -> typing.Any:
+    env = tw.get_env("bundled", flags, le, (), ae)
     env.filters.setdefault("c19ref", c19ref)
     return env
 
@@ -512,8 +587,10 @@ def o2_eval(case: dict, ctx_ids: typing.Sequence[int], st: typing.Optional[dict]
     """Evaluate one placement for the given contexts; returns [(sig, case, what)]."""
     s = o2_sources(case)
     cons: Cons = s["cons"]
-    flags, le = case["flags"], case["le"]
-    env = _o2_env(flags, le)
+    flags, le, ae = case["flags"], case["le"], bool(case.get("autoescape", False))
+    env = _o2_env(flags, le, ae)
+    fl = flags + (", autoescape" if ae else "")
+    aesig: typing.Dict[str, typing.Any] = {"autoescape": True} if ae else {}
     ctxs = [dict(CTXS[i], c19ws=s["ws_eff"]) for i in ctx_ids]
     found = []
     st = st if st is not None else {}
@@ -549,19 +626,23 @@ def o2_eval(case: dict, ctx_ids: typing.Sequence[int], st: typing.Optional[dict]
         if m[0] == "err":
             found.append(
                 (
-                    {"oracle": "marker", "kind": "marked_construct_raises", "construct": construct_class(ci, m, False)},
+                    {"oracle": "marker", "kind": "marked_construct_raises", "construct": construct_class(ci, m, False), **aesig},
                     c1,
-                    f"{tw.with_le(s['marked'], le)!r} [{flags}, ctx {ci}] raises {m[1]} although the plain construct renders",
+                    f"{tw.with_le(s['marked'], le)!r} [{fl}, ctx {ci}] raises {m[1]} although the plain construct renders",
                 )
             )
             continue
         bump("twin_compared")
+        if ae and ("&lt;" in m[1] or "&amp;" in m[1] or "&#3" in m[1]):
+            bump("autoescape_escaped_text_observable")
+        if ae and ("<i>" in m[1] or "<u a" in m[1] or "<a href" in m[1] or "<c>" in m[1]):
+            bump("autoescape_unescaped_markup_observable")
         if not twin_match(m[1], t[1]):
             found.append(
                 (
-                    {"oracle": "marker", "kind": "lines_differ", "construct": construct_class(ci, m, False)},
+                    {"oracle": "marker", "kind": "lines_differ", "construct": construct_class(ci, m, False), **aesig},
                     c1,
-                    f"{tw.with_le(s['marked'], le)!r} [{flags}, ctx {ci}] renders {m[1]!r}; expected (\\x01..\\x02 = "
+                    f"{tw.with_le(s['marked'], le)!r} [{fl}, ctx {ci}] renders {m[1]!r}; expected (\\x01..\\x02 = "
                     f"prefixed lines of the plain construct, ws={s['ws_eff']!r}) {t[1]!r}",
                 )
             )
@@ -580,9 +661,9 @@ def o2_eval(case: dict, ctx_ids: typing.Sequence[int], st: typing.Optional[dict]
             if mm[0] == "err":
                 found.append(
                     (
-                        {"oracle": "marker", "kind": "marked_construct_raises", "construct": construct_class(ci, mm, True)},
+                        {"oracle": "marker", "kind": "marked_construct_raises", "construct": construct_class(ci, mm, True), **aesig},
                         c2,
-                        f"{tw.with_le(s['marked_alone'], le)!r} [{flags}, ctx {ci}] raises {mm[1]}; the plain construct "
+                        f"{tw.with_le(s['marked_alone'], le)!r} [{fl}, ctx {ci}] raises {mm[1]}; the plain construct "
                         f"renders {pp[1]!r}",
                     )
                 )
@@ -595,9 +676,9 @@ def o2_eval(case: dict, ctx_ids: typing.Sequence[int], st: typing.Optional[dict]
             if not accepts(mm[1], want_text):
                 found.append(
                     (
-                        {"oracle": "marker", "kind": "lines_differ", "construct": construct_class(ci, mm, True)},
+                        {"oracle": "marker", "kind": "lines_differ", "construct": construct_class(ci, mm, True), **aesig},
                         c2,
-                        f"{tw.with_le(s['marked_alone'], le)!r} [{flags}, ctx {ci}] renders lines {mm[1].splitlines()!r}; "
+                        f"{tw.with_le(s['marked_alone'], le)!r} [{fl}, ctx {ci}] renders lines {mm[1].splitlines()!r}; "
                         f"plain construct renders {pp[1]!r}, so expected lines {want!r} (modulo one trailing terminator)",
                     )
                 )
@@ -621,7 +702,8 @@ def _rebuild(twin: str, keep: bool) -> str:
     return "".join(out)
 
 
-def o2_space() -> typing.Iterator[typing.Tuple[dict, bool]]:
+def o2_space() -> typing.Iterator[typing.Tuple[dict, bool, bool]]:
+    """(placement, in the quick core with autoescape off?, in the quick core with autoescape on?)"""
     for cons in CONSTRUCTS:
         for enc in ENCLOSURES:
             for lead in LEADS:
@@ -630,6 +712,13 @@ def o2_space() -> typing.Iterator[typing.Tuple[dict, bool]]:
                         core = (enc[0] == "none" and trail in ("", "\ny\n")) or (
                             lead == "x\n" and trail == "\ny\n" and ws == "  "
                         )
+                        fixed = lead == "x\n" and trail == "\ny\n" and ws == "  "
+                        if cons.name in HTML_CONSTRUCTS:
+                            core_ae = fixed or (
+                                enc[0] == "none" and lead in ("", "x\n") and trail in ("", "\ny\n") and ws in ("", "  ", "\t")
+                            )
+                        else:
+                            core_ae = fixed and enc[0] in ("none", "in_macro")
                         yield {
                             "oracle": "marker",
                             "construct": cons.name,
@@ -637,18 +726,21 @@ def o2_space() -> typing.Iterator[typing.Tuple[dict, bool]]:
                             "lead": lead,
                             "trail": trail,
                             "ws": ws,
-                        }, core
+                        }, core, core_ae
 
 
-def o2_work(cases: typing.List[dict]) -> dict:
+def o2_work(cases: typing.List[typing.Tuple[dict, typing.Tuple[bool, ...]]]) -> dict:
     bag = Bag()
     st: typing.Dict[str, int] = {}
     samples = []
-    for base in cases:
+    for base, aes in cases:
         for flags in tw.FLAGS:
-            for le in tw.LINE_ENDINGS:
+            for le, ae in itertools.product(tw.LINE_ENDINGS, aes):
                 case = {**base, "flags": flags, "le": le}
+                if ae:
+                    case["autoescape"] = True
                 st["cases"] = st.get("cases", 0) + 1
+                st["cases_autoescape"] = st.get("cases_autoescape", 0) + int(ae)
                 for sig, c, what in o2_eval(case, range(len(CTXS)), st):
                     bag.add(sig, c, what)
         if len(samples) < 1 and base["enclosure"] == "in_for" and base["ws"] == "\t" and base["lead"] == "x\n":
@@ -963,31 +1055,41 @@ def eval_case(case: dict) -> typing.Optional[typing.Tuple[dict, str]]:
 def run(ctx: Ctx) -> int:
     # -------- enumerate
     seen: typing.Set[str] = set()
-    o1: typing.List[Tpl] = []
-    o1_total = o1_dups = 0
-    for t, core in o1_space():
-        o1_total += 1
-        if not (core or ctx.in_slice("O1:" + t.name)):
-            continue
-        src = t.src + "\x00" + ",".join(t.flags)
-        if src in seen:
-            o1_dups += 1
-            continue
-        seen.add(src)
-        o1.append(t)
-    o2: typing.List[dict] = []
-    o2_total = 0
-    for case, core in o2_space():
+    o1: typing.List[typing.Tuple[Tpl, typing.Tuple[bool, ...]]] = []
+    o1_total = o1_dups = o1a_total = o1a_n = 0
+    for sub, space in (("O1:", o1_space()), ("O1a:", o1a_space())):
+        for t, core in space:
+            if sub == "O1:":
+                o1_total += 1
+            else:
+                o1a_total += 1
+            if not (core or ctx.in_slice(sub + t.name)):
+                continue
+            src = sub + t.src + "\x00" + ",".join(t.flags)
+            if src in seen:
+                o1_dups += 1
+                continue
+            seen.add(src)
+            o1.append((t, (False,) if sub == "O1:" else (False, True)))
+            o1a_n += int(sub == "O1a:")
+    o2: typing.List[typing.Tuple[dict, typing.Tuple[bool, ...]]] = []
+    o2_total = o2_ae_n = 0
+    for case, core, core_ae in o2_space():
         o2_total += 1
-        if core or ctx.in_slice("O2:" + repr(sorted(case.items()))):
-            o2.append(case)
+        cid = "O2:" + repr(sorted(case.items()))
+        off = core or ctx.in_slice(cid)
+        on = core_ae or ctx.in_slice(cid + ":autoescape", 16 if ctx.thorough else 64)
+        if off or on:
+            o2.append((case, tuple(a for a, use in ((False, off), (True, on)) if use)))
+            o2_ae_n += int(on)
     jobs: typing.List[typing.Tuple[str, typing.Any]] = [("o3", None)]
     jobs += [("o2", o2[i : i + 60]) for i in range(0, len(o2), 60)]
     jobs += [("o1", o1[i : i + 250]) for i in range(0, len(o1), 250)]
     results = ctx.pool_map(_work, jobs)
 
     # -------- merge
-    tot = {"cases": 0, "evals": 0, "nontrivial": 0, "both_ok": 0, "both_raise": 0, "family_mismatch": 0}
+    tot = {"cases": 0, "cases_autoescape": 0, "evals": 0, "nontrivial": 0, "both_ok": 0, "both_raise": 0}
+    tot.update(family_mismatch=0, escaping_observable=0)
     count = {"compiles": 0, "renders": 0}
     outcomes: typing.Set[int] = set()
     o2st: typing.Dict[str, int] = {}
@@ -1040,6 +1142,9 @@ def run(ctx: Ctx) -> int:
         "o2 direct comparisons": o2st.get("direct_compared", 0),
         "o2 multi-line renderings with non-empty indentation": o2st.get("nontrivial", 0),
         "o2 renderings containing a blank line": o2st.get("segments_with_blank_line", 0),
+        "o1 autoescape results with escaped text": tot["escaping_observable"],
+        "o2 autoescape renderings with escaped text": o2st.get("autoescape_escaped_text_observable", 0),
+        "o2 autoescape renderings with markup kept unescaped": o2st.get("autoescape_unescaped_markup_observable", 0),
         "o3 assertions that raised": o3st.get("assert_raised", 0),
         "o3 assertions that passed": o3st.get("assert_passed", 0),
         "o3 usequery distinct outputs (>=6)": int(o3st.get("usequery_distinct_outputs", 0) >= 6),
@@ -1059,6 +1164,12 @@ def run(ctx: Ctx) -> int:
         renders=count["renders"],
         o1_templates=len(o1),
         o1_space=o1_total,
+        o1_autoescape_subspace_templates=o1a_n,
+        o1_autoescape_subspace=o1a_total,
+        o1_cases_with_autoescape_on=tot["cases_autoescape"],
+        o1_autoescape_results_with_escaped_text=tot["escaping_observable"],
+        o2_placements_with_autoescape_on=o2_ae_n,
+        html_fragments=len(HTML_FRAGMENTS),
         o1_duplicate_sources_skipped=o1_dups,
         o1_template_x_env_cases=tot["cases"],
         o1_both_rendered=tot["both_ok"],
@@ -1082,11 +1193,13 @@ def run(ctx: Ctx) -> int:
         "Non-trivial = O1: stock rendered the template and the text differs from the template source (some tag did "
         "something); O2: the plain construct rendered >=2 lines and the indentation in front of the marker is not "
         "empty (prefixing is observable beyond the first line); O3: assertions that raised.",
-        "bound_completed": f"O1: {len(o1)} of {o1_total} templates (all sequences of <=3 of {len(FRAGMENTS)} fragments, "
-        f"<=2 fragments in each of {len(WRAPPERS)} wrappers, 1 fragment in each ordered wrapper pair) x {len(tw.FLAGS)} "
-        f"flag sets x LF/CRLF x {len(CTXS)} contexts; O2: {len(o2)} of {o2_total} placements ({len(CONSTRUCTS)} "
+        "bound_completed": f"O1: {len(o1) - o1a_n} of {o1_total} templates (all sequences of <=3 of {len(FRAGMENTS)} "
+        f"fragments, <=2 fragments in each of {len(WRAPPERS)} wrappers, 1 fragment in each ordered wrapper pair) x "
+        f"{len(tw.FLAGS)} flag sets x LF/CRLF x {len(CTXS)} contexts, plus the autoescape sub-space {o1a_n} of {o1a_total} "
+        f"templates over {len(HTML_FRAGMENTS)} HTML/Markup fragments x autoescape off/on x the same environments; "
+        f"O2: {len(o2)} of {o2_total} placements ({len(CONSTRUCTS)} "
         f"constructs x {len(ENCLOSURES)} enclosures x {len(LEADS)} leads x {len(TRAILS)} trails x {len(WS)} indentations)"
-        f" x flags x line endings x contexts; O3: {o3st.get('assert_evals')} assertions, "
+        f" x flags x line endings x contexts, {o2_ae_n} of them also with autoescape on; O3: {o3st.get('assert_evals')} assertions, "
         f"{o3st.get('usequery_chains')} use-query chains x 4 truth assignments",
         "exhaustive": bool(ctx.thorough),
         "excluded_constructs": excluded,
